@@ -174,7 +174,8 @@ func main() {
 	}
 }
 `},
-	{name: "generic_instances_with_locals", src: `package main
+	// (takes the address of locals in a generic function as well: shows the same finding as the first witness)
+	{name: "generic_instances_with_locals", key: "varptr_name_shared_by_generic_instances", src: `package main
 
 type pair[T any] struct{ l, r T }
 
